@@ -381,7 +381,7 @@ class _TypeCall(ast.NodeTransformer):
         return node
 
 
-CANON_MODULES = {"numpy": "np", "math": "math"}
+CANON_MODULES = {"numpy": "np", "math": "math", "operator": "operator", "functools": "functools", "itertools": "itertools"}
 
 
 class _ImportCanon(ast.NodeTransformer):
@@ -632,6 +632,8 @@ def desugar_match(tree):
     `from numpy / math import ..`, method aliases read through, simple `match` statements -> if chains, type(x) ->
     x.__class__"""
     tree = _ImportCanon(tree).visit(tree)
+    from verifkit import funcnorm
+    tree = funcnorm.normalise(tree)
     tree = _AliasInline(tree).visit(tree)
     tree = _MatchDesugar().visit(tree)
     tree = _TypeCall().visit(tree)
